@@ -154,6 +154,11 @@ func (jr *jpegReader) nextMarker() bool {
 			continue
 		}
 
+		// a marker may be preceded by any number of fill bytes 0xFF (T.81 B.1.1.2)
+		if jr.buf[1] == byte(markerFirstByte) {
+			jr.err = jr.discard(1)
+			continue
+		}
 		if isSOIMarker(jr.buf) {
 			jr.pos++
 			jr.err = jr.discard(2)
